@@ -13,7 +13,7 @@ from bvmon import harness
 
 STATUSES = ["clean", " M", "M ", "MM", "A ", "AM", " D", "D ", "R ", "R>", "RM", "RM>", "RD>", "DR>", "??"]
 # only for the unrelated role: a git submodule whose pointer moved (unstaged / staged)
-SUB_STATUSES = ["sub: M", "sub:M "]
+SUB_STATUSES = ["sub: M", "sub:M ", "sub:??"]      # new commit in the submodule (unstaged / staged); only an untracked file in it
 ROLES = ["pattern", "unrelated"]
 # hg: M modified, A added, R removed, ! missing, ? not tracked
 HG_STATUSES = ["clean", "M", "A", "R", "!", "?"]
@@ -29,7 +29,7 @@ SPEC = dict(
                  "committed by `git commit` by design and are not asserted",
                  "a run is expected to proceed only when no pattern file is dirty (and the tree is clean or "
                  "--allow-dirty is given)"],
-    required=["submodule_cases", "untracked_pattern_file_in_untracked_directory", "quoted_names_in_porcelain_output", "dot_git_is_a_file_cases", "hg_status_cases", "hg_names_with_edge_blanks_or_quotes", "aborts_checked", "proceeds_checked", "pattern_file_dirty_with_allow_dirty", "untracked_unrelated_not_blocking",
+    required=["submodule_cases", "untracked_file_inside_a_submodule", "untracked_pattern_file_in_untracked_directory", "quoted_names_in_porcelain_output", "dot_git_is_a_file_cases", "hg_status_cases", "hg_names_with_edge_blanks_or_quotes", "aborts_checked", "proceeds_checked", "pattern_file_dirty_with_allow_dirty", "untracked_unrelated_not_blocking",
               "bump_commit_content_checked"],
     anchors=[("vcs", "assert_not_dirty"), ("cli", "_update")],
     exhaustive={"quick": True, "thorough": True},
@@ -308,7 +308,11 @@ def run_case(ctx, case):
                 if st == "AM":
                     write(d, rel, content + "local edit\n")
         make_status(d, pfile, ps, pcontent)
-        if us.startswith("sub:"):
+        if us == "sub:??":
+            # nothing but an untracked, pattern-free file inside the submodule (git prints ` M vendor/lib` for it)
+            write(os.path.join(d, "vendor/lib"), "scratch.txt", "scratch\n")
+            ctx.count("untracked_file_inside_a_submodule")
+        elif us.startswith("sub:"):
             sub = os.path.join(d, "vendor/lib")
             write(sub, "lib.txt", "lib\nmore\n")
             git(sub, "commit", "-q", "-am", "lib 2")
@@ -322,7 +326,9 @@ def run_case(ctx, case):
         for rel, st in ((pfile, ps), (ufile, us)):
             if st == "clean":
                 continue
-            code = {"R>": "R ", "RM>": "RM", "RD>": "RD", "DR>": "DR", "sub: M": " M", "sub:M ": "M "}.get(st, st)
+            code = {"R>": "R ", "RM>": "RM", "RD>": "RD", "DR>": "DR", "sub: M": " M", "sub:M ": "M ", "sub:??": " M"}.get(st, st)
+            if st == "sub:??":
+                continue        # (whether git lists the submodule at all is what the status options decide)
             hit = [ln for ln in entries if ln[:2] == code and rel in ln]
             if not hit and code == "??":
                 # git reports a directory that holds only untracked files as ONE entry: `?? src/`
@@ -334,7 +340,7 @@ def run_case(ctx, case):
         before = harness.snapshot(d)
         n_before = int(git(d, "rev-list", "--count", "HEAD"))
         p_dirty = ps != "clean"
-        u_blocks = us not in ("clean", "??")
+        u_blocks = us not in ("clean", "??", "sub:??")      # untracked files that carry no pattern never block
         if p_dirty:
             expect = "abort"
         elif u_blocks and not allow:
